@@ -8,6 +8,7 @@
    NOT covered here (archive level, correspondence job c03 + known finding D17): names listed
    from a footer located from the END of the stream — dropping whole trailing chunks is not
    detected by the random-access reader. *)
+From MLA Require Import Limit.
 From MLA Require Import Base Stream EncLayer EncLayerProofs EncAuth Inst.
 Open Scope N_scope.
 
@@ -71,6 +72,7 @@ Proof. exact throttled_seekable. Qed.
 
 (* ---------- non-vacuity (toy cipher, CHUNK = 4, TAG = 2) ---------- *)
 Section Ex.
+  Context {LIM : Limit}.
   Let CH := 4. Let TG := 2.
   Let plain : bytes := [1; 2; 3; 4; 5; 6; 7; 8; 9; 10].
   Let wire := enc_format CH toy_ks (toy_tag TG) plain.
@@ -157,6 +159,7 @@ Theorem C03_archive_cursor_agrees : forall plain, AgreesOn (Cursor plain) (fun s
 Proof. exact cursor_agrees. Qed.
 
 Section C03Archive.
+  Context {LIM : Limit}.
   Variable FNMAX : N.
   Variables T_START T_CONTENT T_EOA T_EOF : N.
   Variable H : bytes -> bytes.
@@ -239,7 +242,7 @@ End C03Archive.
 
 (* end to end for the encryption reader: arbitrary altered inner bytes w, no forgery, the length
    of w still maps to at least the original plaintext length *)
-Theorem C03_archive_enc_open_list :
+Theorem C03_archive_enc_open_list {LIM : Limit} :
   forall FNMAX T_START T_CONTENT T_EOA T_EOF H order,
   (forall x, len (H x) = 32) -> (forall f, Permutation (order f) f) ->
   forall ops sf rs,
@@ -265,7 +268,7 @@ Proof. exact enc_end_same_length. Qed.
 (* D17: the statement about names is false of the faithful model without that hypothesis *)
 Theorem C03_D17_refuted :
   exists (ops : list wop) (w' : bytes),
-    let run := wrun D17.FN Src.BT_FileStart Src.BT_FileContent Src.BT_EndOfArchiveData Src.BT_EndOfFile
+    let run := wrun (LIM := Src.BINCODE_MAX_DESERIALIZE_prod) D17.FN Src.BT_FileStart Src.BT_FileContent Src.BT_EndOfArchiveData Src.BT_EndOfFile
                     D17.Hz D17.oid w_init (ops ++ [OFinalize]) in
     Forall (fun r => is_ok r = true) (snd run) /\
     prefix w' (enc_format D17.CH toy_ks (toy_tag D17.TG) (w_out (fst run))) /\
